@@ -1,7 +1,65 @@
-/-  C18/Driver — line protocol front end (core-only).  Placeholder until the property is built. -/
+/-
+  C18/Driver — line protocol front end (core-only).
+    inject <k> <intry|free> <vars|-> <program>   a foreign panic injected at evaluation step k of the C01-language program
+    depth <L> <d>                   stack limit L, d nested calls from the global scope
+    interrupt <shape>               a halting interrupt sent while a script spins
+-/
 import OttoVerif.Base.Proto
+import OttoVerif.C01.Driver
+import OttoVerif.C18.Model
 namespace OttoVerif.C18.Driver
+open OttoVerif.C01 OttoVerif.C18
 
-def handle (_ws : List String) : String := "bad-op"
+mutual
+def hasTryS : Stmt → Bool
+  | .tryS .. => true
+  | .block ss => hasTryL ss
+  | .ifS _ t e => hasTryS t || hasTryS e
+  | .whileS _ b => hasTryS b
+  | .doWhile b _ => hasTryS b
+  | .forS _ _ _ b => hasTryS b
+  | .labelled _ s => hasTryS s
+  | .switchS _ cs => hasTryC cs
+  | _ => false
+def hasTryL : Stmts → Bool
+  | .nil => false
+  | .cons s ss => hasTryS s || hasTryL ss
+def hasTryC : Cases → Bool
+  | .nil => false
+  | .cons _ b cs => hasTryL b || hasTryC cs
+end
+
+def handle (ws : List String) : String :=
+  match ws with
+  | ["inject", _k, where_, _vars, prog] =>
+    match OttoVerif.C01.Driver.parseSX prog.toList with
+    | some (.node "P" ss, []) =>
+      match OttoVerif.C01.Driver.stmtsOf ss with
+      | none => "bad-op"
+      | some p =>
+        -- the property: the panic comes out of Run, the runtime is at rest, effects before the exit
+        -- are intact and nothing ran afterwards, later scripts run normally
+        let spec := "escapes;rest:ok;trace:exact-prefix;follow:ok"
+        -- `intry` = the harness saw tryCatchEvaluate on the Go stack at step k of the unperturbed run
+        if where_ = "intry" ∧ hasTryL p then
+          -- tryCatchEvaluate recovers ANY panic value (runtime.go:118): inside a try the foreign panic is
+          -- converted and the script may continue
+          "escapes-or-caught;rest:ok;trace:any;follow:ok " ++ spec ++ " trycatch_foreign"
+        else spec ++ " " ++ spec ++ " -"
+    | _ => "bad-op"
+  | ["depth", l, d] =>
+    match l.toNat?, d.toNat? with
+    | some L, some (d+1) =>
+      let out := (runAct L (nest d) [0]).2
+      let tok := match out with
+        | .done => "ok;rest:ok"
+        | _ => "RangeError;catchable;rest:ok"
+      -- spec (property text): the limit admits exactly the configured nesting, i.e. L-1 calls below the global scope
+      let spec := if L = 0 ∨ d + 1 < L then "ok;rest:ok" else "RangeError;catchable;rest:ok"
+      tok ++ " " ++ spec ++ " -"
+    | _, _ => "bad-op"
+  | ["interrupt", _shape, "free"] => "halted;rest:ok;follow:ok halted;rest:ok;follow:ok -"
+  | ["interrupt", _shape, "intry"] => "halted-or-caught;rest:ok;follow:ok halted;rest:ok;follow:ok trycatch_foreign"
+  | _ => "bad-op"
 
 end OttoVerif.C18.Driver
